@@ -77,7 +77,6 @@ func main() {
 	sc := bufio.NewScanner(in)
 	sc.Buffer(make([]byte, 1<<20), 1<<28)
 	n := 0
-	lastFlush := time.Now()
 	for sc.Scan() {
 		line := sc.Bytes()
 		if len(line) == 0 {
@@ -93,10 +92,7 @@ func main() {
 		_ = json.Unmarshal(raw, &idv)
 		if prog != nil {
 			// flush results first so that the out file is consistent with progress
-			if time.Since(lastFlush) > 200*time.Millisecond {
-				out.Flush()
-				lastFlush = time.Now()
-			}
+			out.Flush()
 			fmt.Fprintf(prog, "%d %s\n", n, idv.ID)
 		}
 		type resT struct {
